@@ -124,12 +124,18 @@ func genCase(t *rapid.T) Case {
 }
 
 func waitForSyncWorkers() {
+	clean := 0
 	for i := 0; i < 20000; i++ {
-		buf := make([]byte, 1<<20)
+		buf := make([]byte, 16<<20)
 		n := runtime.Stack(buf, true)
 		st := string(buf[:n])
-		if !strings.Contains(st, "sendShardFile") && !strings.Contains(st, "syncShards") && !strings.Contains(st, "syncUserCollections") {
-			return
+		if !strings.Contains(st, "sendShardFile") && !strings.Contains(st, "syncShards") && !strings.Contains(st, "syncUserCollections") && !strings.Contains(st, "RPCSendShard") && !strings.Contains(st, "RPCSetNodeKeyValue") {
+			clean++
+			if clean >= 3 {
+				return
+			}
+		} else {
+			clean = 0
 		}
 		time.Sleep(time.Millisecond)
 	}
@@ -279,7 +285,7 @@ func execCase(c Case) (res vt.Result) {
 	defer cleanup()
 	e := &env{dir: dir, nodes: make([]*cluster.ClusterNode, c.Total)}
 	for k := 0; k < c.Total; k++ {
-		host := fmt.Sprintf("127.0.1.%d", k+1)
+		host := drive.LoopbackHost(k + 1)
 		e.specs = append(e.specs, drive.NodeSpec{Host: host, Port: drive.FreePort(host)})
 	}
 	defer func() {
